@@ -9,6 +9,10 @@ import (
 	"encoding/binary"
 	"errors"
 	"fmt"
+	"net"
+	"net/http"
+	"os"
+	"path/filepath"
 	"strings"
 	"testing"
 
@@ -201,6 +205,38 @@ func TestVerif_C03(t *testing.T) {
 			}
 		}
 		rep.CountN(tag+" absent-cids-colliding", collCids)
+		// the same through a CAR served by a ReaderAt (HTTP on loopback): the remote read path has its own CID check
+		if loaded == 1 {
+			if ln, lerr := net.Listen("tcp", "127.0.0.1:0"); lerr == nil {
+				srv := &http.Server{Handler: http.FileServer(http.Dir(vh.OutDir()))}
+				go srv.Serve(ln)
+				rel, _ := filepath.Rel(vh.OutDir(), trBig.CarPath)
+				cfgPath := filepath.Join(trBig.Spec.Dir, "epoch-http.yml")
+				_ = os.WriteFile(cfgPath, []byte(vfxConfigYaml(trBig, fmt.Sprintf("http://%s/%s", ln.Addr().String(), filepath.ToSlash(rel)))), 0o644)
+				if epR, err := vfxLoadConfigFile(cfgPath, vfxNewCache()); err == nil {
+					rngR := vh.NewRng(seed + 4242)
+					collR := 0
+					for i := 0; i < 200000; i++ {
+						c := vfxMkCid(rngR.Bytes(12), false)
+						oas, lerr := epR.cidToOffsetAndSizeIndex.Get(c)
+						if lerr != nil {
+							continue
+						}
+						collR++
+						rep.Case(fmt.Sprintf("%s/cid-readerat/%s", tag, c), true)
+						if raw, gerr := epR.GetNodeByCid(ctx, c); gerr == nil {
+							rep.Fail("bytes-of-another-cid:readerat", fmt.Sprintf("CAR served through a ReaderAt: GetNodeByCid(%s) returned %d bytes stored at offset %d under another CID", c, len(raw), oas.Offset),
+								map[string]interface{}{"spec": trBig.Spec, "cid": c.String()})
+						}
+					}
+					rep.CountN("readerat absent-cids-colliding", collR)
+					epR.Close()
+				} else {
+					rep.Note("ReaderAt path not exercised: %v", err)
+				}
+				srv.Close()
+			}
+		}
 		// ---- absent addresses (GSFA): an address without history
 		if ep.gsfaReader != nil {
 			known := map[string]bool{}
